@@ -434,6 +434,56 @@ def overlong_cases(ctx, res):
             res.oracle_failures.append({"input": inp, "what": "Client.list(raw_command=%r) raised %s for an over-long listing line (not ValueError)" % (kind, o[1]), "signature": "C19:list-%s-raises-%s" % (kind, o[1])})
 
 
+def custom_names_cases(ctx, res):
+    """a line parser of one's own that returns names as `str` or as another pure path class (the chain only asks for
+    "(path, info)"): `Client.list` still skips the '.' and '..' entries of an `ls -la` listing, joins the names to the
+    listed directory, and a recursive listing comes to an end"""
+    import pathlib
+
+    import aioftp
+
+    import foreign
+    import simnet
+
+    async def case(loop, kind, recursive):
+        wd = foreign.ForeignWorld(loop, {"mlsd": False, "mlst": False, "dots": True})
+        await wd.start()
+        try:
+            wd.set_tree([(("a.txt",), b"a"), (("sub",), None), (("sub", "b.txt"), b"b"), (("sub", "deep"), None)])
+            stock = aioftp.Client()
+
+            def custom(b):
+                p, i = stock.parse_list_line_unix(b)
+                return (str(p) if kind == "str" else pathlib.PureWindowsPath(str(p))), i
+
+            c = aioftp.Client(parse_list_line_custom=custom, parse_list_line_custom_first=True, path_io_factory=aioftp.MemoryPathIO)
+            await c.connect("127.0.0.1", wd.port)
+            await c.login()
+            got = sorted(str(pathlib.PurePosixPath(*pathlib.PurePosixPath(str(p).replace("\\", "/")).parts)) for p, i in await c.list("/", recursive=recursive))
+            await c.quit()
+            return got
+        finally:
+            try:
+                await wd.stop()
+            except Exception:
+                wd.finish()
+
+    for kind in ("str", "PureWindowsPath"):
+        for recursive in (False, True):
+            res.cases += 1
+            res.count("family=custom-names")
+            res.distinct.add(("custom-names", kind, recursive))
+            inp = {"family": "custom-names", "names_as": kind, "recursive": recursive}
+            want = ["/a.txt", "/sub"] + (["/sub/b.txt", "/sub/deep"] if recursive else [])
+            try:
+                got = simnet.run(case, kind, recursive, wall_limit=20)
+            except BaseException as e:  # noqa
+                got = "%s: %s" % (type(e).__name__, str(e)[:120])
+            if got != want:
+                res.oracle_failures.append({"input": inp, "what": "a custom line parser that returns names as %s, an `ls -la` listing with '.' and '..': list('/', recursive=%s) -> %r, want %r" % (kind, recursive, got, want),
+                                            "signature": "C19:custom-parser-names:dot-entries"})
+
+
 def custom_parser_cases(ctx, res):
     """a line parser of one's own in the chain (`parse_list_line_custom`), tried first or last: whatever it raises of the
     classes the chain contains for the built-in parsers, a line nobody can parse is still reported as ValueError - and a
@@ -555,6 +605,7 @@ def _run(ctx, with_model, n_list, n_text):
     overlong_cases(ctx, res)
     stat_fallback_cases(ctx, res)
     custom_parser_cases(ctx, res)
+    custom_names_cases(ctx, res)
     listing = gen_listing_inputs(ctx, n_list)
     texts = gen_text_inputs(ctx, n_text)
     try:
